@@ -3,7 +3,9 @@
 mod ops_bits;
 #[path = "../ops_int.rs"]
 mod ops_int;
+#[path = "../ops_int_prim.rs"]
+mod ops_int_prim;
 
 fn main() {
-    verif_harness::run_main(&[ops_int::dispatch, ops_bits::dispatch]);
+    verif_harness::run_main(&[ops_int::dispatch, ops_bits::dispatch, ops_int_prim::dispatch]);
 }
